@@ -560,7 +560,9 @@ impl BDF {
                 }
             }
 
-            if direction * (x - xend) >= 0.0 {
+            // Done when xend is reached, also when the final step landed an ulp short of it:
+            // nothing is left to integrate then, whatever the step budget says
+            if direction * (x - xend) >= 0.0 || (x + 0.1 * (xend - x).abs()) == x {
                 status = Status::Success;
                 break;
             }
